@@ -15,7 +15,8 @@ Replay = Callable[[str, Dict[str, Any], Any], Tuple[bool, str]]
 
 def discharge(pid: str, hname: str, harness: Callable[[Ctx], Any], replay: Optional[Replay] = None,
               timeout_s: float = 30.0, max_paths: int = 256,
-              allowed_exceptions: Tuple[type, ...] = ()) -> List[Dict[str, Any]]:
+              allowed_exceptions: Tuple[type, ...] = (), base_info: Optional[Dict[str, Any]] = None,
+              skip_definedness: bool = False) -> List[Dict[str, Any]]:
     recs: List[Dict[str, Any]] = []
     t0 = time.time()
     try:
@@ -28,7 +29,7 @@ def discharge(pid: str, hname: str, harness: Callable[[Ctx], Any], replay: Optio
             pname = f"{hname}/p{pi}" if len(paths) > 1 else hname
             if exc is not None and not isinstance(exc, allowed_exceptions):
                 tb = "".join(traceback.format_exception(type(exc), exc, exc.__traceback__))[-1200:]
-                _unexpected(pid, pname, c, exc, tb, replay, recs, timeout_s)
+                _unexpected(pid, pname, c, exc, tb, replay, recs, timeout_s, base_info or {})
                 # obligations recorded before the exception are still discharged below
             seen = set()
             for ob in c.obligations:
@@ -36,7 +37,9 @@ def discharge(pid: str, hname: str, harness: Callable[[Ctx], Any], replay: Optio
                 if sig in seen:
                     continue
                 seen.add(sig)
-                _one(pid, pname, c, ob, replay, recs, timeout_s)
+                if skip_definedness and ob["kind"] == "definedness":
+                    continue  # discharged under another property's check; still assumed by later claims
+                _one(pid, pname, c, ob, replay, recs, timeout_s, base_info or {})
             recs.append({"type": "obligation", "name": f"{pname}/feasibility", "status": PROVED,
                          "secs": c.feas_s, "queries": c.feas_queries, "detail": {"decisions": c.trace},
                          "kind": "solver"} if c.feas_queries else {"type": "paths", "n": 0})
@@ -44,7 +47,7 @@ def discharge(pid: str, hname: str, harness: Callable[[Ctx], Any], replay: Optio
 
 
 def _unexpected(pid: str, pname: str, c: Ctx, exc: BaseException, tb: str, replay: Optional[Replay],
-                recs: List[Dict[str, Any]], timeout_s: float) -> None:
+                recs: List[Dict[str, Any]], timeout_s: float, base_info: Dict[str, Any]) -> None:
     name = f"{pname}/no-exception"
     cs = c.background() + c.path
     st, model, secs = portfolio(cs, timeout_s)
@@ -57,20 +60,30 @@ def _unexpected(pid: str, pname: str, c: Ctx, exc: BaseException, tb: str, repla
         recs.append({"type": "obligation", "name": name, "status": INCONCLUSIVE, "secs": secs,
                      "detail": f"symbolic run raised {type(exc).__name__}: {exc}\n{tb}"})
         return
-    ok, desc = replay("no-exception", md, {"exception": f"{type(exc).__name__}: {exc}"})
+    try:
+        ok, desc = replay("no-exception", md, {**base_info, "exception": f"{type(exc).__name__}: {exc}"})
+    except Exception:
+        ok, desc = False, "replayer crashed: " + traceback.format_exc()[-800:]
     if ok:
         recs.append({"type": "violation", "key": f"{pid}/{name}", "what": desc,
-                     "replay": {"harness": pname, "obligation": "no-exception", "model": md}})
+                     "replay": {"harness": pname, "obligation": "no-exception", "model": md, "info": _plain(base_info)}})
     else:
         recs.append({"type": "obligation", "name": name, "status": INCONCLUSIVE, "secs": secs,
                      "detail": f"symbolic run raised {type(exc).__name__}: {exc} but the real code does not ({desc})\n{tb}"})
 
 
 def _one(pid: str, pname: str, c: Ctx, ob: Dict[str, Any], replay: Optional[Replay],
-         recs: List[Dict[str, Any]], timeout_s: float) -> None:
+         recs: List[Dict[str, Any]], timeout_s: float, base_info: Dict[str, Any]) -> None:
     name = f"{pname}/{ob['name']}"
     base = c.background(ob["ndefs"] if ob["kind"] == "definedness" else None) + ob["path"]
+    if ob["kind"] != "definedness":
+        # definedness of everything evaluated before this claim is an obligation of its own: assume it here
+        idx = c.obligations.index(ob)
+        base += [o["claim"] for o in c.obligations[:idx] if o["kind"] == "definedness"
+                 and all(any(p.eq(q) for q in ob["path"]) for p in o["path"])]
     info = ob.get("info") or {}
+    if isinstance(info, dict):
+        info = {**base_info, **info}
     known = list(info.get("known", [])) if isinstance(info, dict) else []  # [(suffix, z3 predicate)]
     excluded: List[Any] = []
     total = 0.0
@@ -91,6 +104,15 @@ def _one(pid: str, pname: str, c: Ctx, ob: Dict[str, Any], replay: Optional[Repl
                          "detail": {"kind": ob["kind"], "excluded_known": [str(e) for e in excluded] or None,
                                     "smt": _short(ob["claim"])}})
             return
+        if st == "sat" and ob.get("tol") is not None:
+            st2, _, secs2 = portfolio(base + excluded + [z3.Not(ob["tol"])], timeout_s)
+            total += secs2
+            queries += 1
+            if st2 == "unsat":
+                recs.append({"type": "obligation", "name": name, "status": PROVED, "secs": total, "queries": queries,
+                             "detail": {"kind": ob["kind"], "note": "holds to 1e-9 relative (exact form refuted only through "
+                                        "float constants taken as exact rationals)", "smt": _short(ob["tol"])}})
+                return
         if st != "sat":
             recs.append({"type": "obligation", "name": name, "status": INCONCLUSIVE, "secs": total, "queries": queries,
                          "detail": f"solver {st} within {timeout_s}s: {_short(ob['claim'])}"})
